@@ -275,7 +275,7 @@ def getDoxygen (cfg : LexCfg) (mcRe : Re) (b : Buf) : Except Err (Option String 
 def doxAfterScan : List Tok → List Tok → List Tok → (List Tok × List Tok × List Tok)
   | comments, newbuf, [] => (comments, newbuf, [])
   | comments, newbuf, t :: ts =>
-    if t.type = "NEWLINE" then (comments, newbuf, ts)
+    if t.type = "NEWLINE" then (comments, newbuf ++ [t], ts)  -- kept: it may end a directive line that follows in this buffer
     else if t.type = "WHITESPACE" then doxAfterScan comments (newbuf ++ [t]) ts
     else if isComment t.type then doxAfterScan (comments ++ [t]) newbuf ts
     else
